@@ -316,6 +316,6 @@ fn main() {
     let check = Check::new("C09", "exploration");
     check.rule("filters of depth<=3 (and/or/not over comparisons field-vs-literal, literal-vs-field, field-vs-field, arithmetic-vs-literal, bare bool field, in/not in) over 3 fields; 3-8 events whose fields are int/float/string/bool/missing from small colliding pools (incl. 2^53+1, 0.1+0.2, 1e-17); one engine runs `A.where(f).emit(id: id)` and `sequence(a: A where f).emit(id: a.id)` on the same events + 2 sentinels (a one-step sequence emits on the next routed event); oracle: equal accepted-id sets, no duplicates; a harness-side model of the SASE predicate path only names known root causes and drops exactly the events it predicts to diverge for those; non-trivial = the filter accepts some and rejects some events and a field is missing or of another type");
     check.assume("both programs run in the real Engine; sentinels have reserved ids >= 900; attribution model is not part of the verdict (an unpredicted divergence is reported as diverge:unexplained)");
-    check.explore("where_vs_sequence", strat, 5_000, 100_000, run);
+    check.explore("where_vs_sequence", strat, 8_000, 160_000, run);
     check.finish();
 }
